@@ -34,6 +34,9 @@ class SA(np.ndarray):
                 return _real_np.dtype("complex128")
         if self.decl == "complex128" and self.size == 0:
             return _real_np.dtype("complex128")
+        if self.decl == "float32":
+            # a real single-precision array (declared by a harness): values are reals, only the reported dtype differs
+            return _real_np.dtype("float32")
         return _real_np.dtype("float64")
 
     def astype(self, dtype, *a, **k):
